@@ -66,6 +66,7 @@ type InfoObs struct {
 	After  []int      `json:"after"`
 	Rerun  []int      `json:"rerun"`
 	Subs   []*SubInfo `json:"subs,omitempty"`
+	Touch  map[int]int `json:"touch,omitempty"` // St.Touch of the reported state (oracle only, not part of the canonical state)
 }
 
 type SubInfo struct {
@@ -116,6 +117,12 @@ func canonInfo(info *compose.InterruptInfo) *InfoObs {
 	o := &InfoObs{Before: parseKeys(info.BeforeNodes), After: parseKeys(info.AfterNodes), Rerun: parseKeys(info.RerunNodes)}
 	if st, ok := info.State.(*St); ok && st != nil {
 		o.State = stCanon(st)
+		if len(st.Touch) > 0 {
+			o.Touch = map[int]int{}
+			for k, v := range st.Touch {
+				o.Touch[parseKey(k)] = v
+			}
+		}
 	} else if info.State != nil {
 		o.State = &Val{Leaf: fmt.Sprintf("?%T", info.State)}
 	}
